@@ -215,6 +215,23 @@ theorem isBoundary_min {t : Text} {a b : Nat} (ha : IsBoundary t a) (hb : IsBoun
   · rw [Nat.min_eq_left h]; exact ha
   · rw [Nat.min_eq_right (by omega)]; exact hb
 
+/-- `drain_around` from a state whose old cursor `c` is on a boundary: one deletion notification for the
+    whole span (its direction says where the cursor stood) -/
+theorem drainAround_ok {lb : LB} {a b : Nat} (c : Nat) (ha : IsBoundary lb.buf a) (hb : IsBoundary lb.buf b)
+    (hc : IsBoundary lb.buf c) (hab : a ≤ b) :
+    ∃ x y z d, LB.drainAround a b c lb = .ok (y, { lb with buf := x ++ z }, [.del a y d]) ∧
+      lb.buf = x ++ y ++ z ∧ a = blen x ∧ b = blen x + blen y := by
+  unfold LB.drainAround
+  by_cases hca : c ≤ a
+  · obtain ⟨x, y, z, hd, h1, h2, h3⟩ := drain_ok (lb := lb) .forward ha hb hab
+    exact ⟨x, y, z, .forward, by simp [hca, hd], h1, h2, h3⟩
+  · have hm : IsBoundary lb.buf (min c b) := isBoundary_min hc hb
+    obtain ⟨x1, y1, z1, hs1, _, _, _⟩ := split3_of_boundaries ha hm (by omega)
+    obtain ⟨x2, y2, z2, hs2, _, _, _⟩ := split3_of_boundaries hm hb (by omega)
+    obtain ⟨x, y, z, hd, h1, h2, h3⟩ := drain_ok (lb := lb) (.around (min c b - a)) ha hb hab
+    exact ⟨x, y, z, .around (min c b - a),
+      by simp [hca, LM.bind_apply, LM.get, LM.lift, slice, hs1, hs2, hd], h1, h2, h3⟩
+
 theorem isBoundary_prefix {x z : Text} {p : Nat} (h : IsBoundary (x ++ z) p) (hp : p ≤ blen x) : IsBoundary x p := by
   obtain ⟨a, b, hab, rfl⟩ := h
   obtain ⟨y, rfl⟩ := prefix_of_append_eq hab.symm hp
